@@ -524,6 +524,9 @@ def run(ctx):
     ctx.attempt(trace_selector_rule, ctx)
     ctx.attempt(stress_parts_rule, ctx)
     ctx.attempt(energy_parts_rule, ctx)
+    from . import e2e_rules as _e2e
+
+    ctx.attempt(_e2e.phasefield_rule, ctx, "R17.E1")
     ctx.attempt(history_reset_callers_rule, ctx)
     ctx.attempt(degenerate_projector_rule, ctx)
     ctx.attempt(degenerate_derivative_rule, ctx)
